@@ -5,6 +5,15 @@ props = [json.loads(l) for l in open('/verif/properties.jsonl')]
 ids = [p['id'] for p in props]
 
 CHECKS = {
+ "C15": dict(category="fault_enumeration", technique="offline history checker against an executable model + fault enumeration over artifact files",
+   text="Part A drives histories of {edit body, edit interface (8 kinds), check, build, link} against the real separate-compilation entry points with artifacts on disk and checks every logged call/return against a model of which interface state each artifact was built from and against: link must succeed iff every core's recorded dependency state equals the dependency core's own state; equal interface states must hash equal and different ones differently. Exhaustive over all op sequences up to length 3 (quick) / 5 (thorough) on a 2-package graph, random histories up to length 30 on 2-5 package DAGs. Part B corrupts every scalar leaf of valid .interface/.core files (change, delete, retype) and offers the file to every read path, plus format_version/compiler_abi bumps with a recomputed hash.",
+   design_ref="DESIGN.md 4/C15", note="forgeries that alter content and recompute the hash are out of scope (except the version bump the property names); void corruptions (re-serialisation identical) are not counted"),
+ "C01": dict(category="exploration", technique="differential runtime monitor: real compiler output executed by an independent Go interpreter (gomini) vs an independent reference semantics (refsem) / recorded real-Go outputs",
+   text="Every corpus program and project is compiled now and its Go executed; stdout must equal what real Go recorded. Type-directed generated programs (all expression, pattern, item and builtin forms of the clean lattice, effects ticked in sub-expression positions, 10% with deliberate run-time failures), their max-parenthesised twins and generated multi-package projects are compiled, statically checked and executed; stdout, termination class and failure point must equal the reference semantics. Closed programs: one execution decides one program; reach comes from measured diversity (feature tags in the evidence).",
+   design_ref="DESIGN.md 4/C01", note="relative to gomini's fidelity (calibrated on 69+8 recorded real-Go runs) and refsem; feature combinations behind recorded findings are outside the generated lattice and pinned by witnesses"),
+ "C02": dict(category="exploration", technique="runtime monitor: independent Go static checker (gomini vet: scopes, types, constants, unused variables/imports, returns) over every emitted Go text",
+   text="Corpus goldens (oracle calibration: vet agrees with real Go on all 74, including the one real Go rejected), corpus programs compiled now, and generated programs over the feature lattice are compiled; every accepted program's Go text must pass the checker. Signatures are (error kind, shape of the offending Go line).",
+   design_ref="DESIGN.md 4/C02", note="vet reports only what it is certain of; anything else is inconclusive. Closure values flowing into function-typed positions and non-exhaustive matches at non-unit types are recorded findings outside the gate"),
  "C13": dict(category="exploration", technique="runtime monitor: byte-equality of all compiler outputs across re-runs under varied directory creation order (tmpfs/ext4), fresh threads and a fresh process (hash seeds)",
    text="Corpus projects, single-file corpus programs and generated multi-package projects (well-typed, and ill-typed with several injected errors so that diagnostic order is exercised) are materialised R times with different file/directory creation orders on tmpfs plus one ext4 copy and observed in fresh threads and one fresh process: Go text, 8 stage dumps, ordered diagnostics, check/build interface and core files, interface hashes and linked Go must be byte-identical. The evidence counts the directory enumeration orders and probe-HashSet orders actually seen.",
    design_ref="DESIGN.md 4/C13", note="enumeration orders are those tmpfs/ext4 produce for the creation orders tried; hash seeds are std RandomState's per-thread/process keys"),
